@@ -102,6 +102,27 @@ type mesh struct {
 	raw map[string]*peer.SignedMsg
 	// ended: node -> number of sessions that ended and ran their tear-down (verif hook)
 	ended []int
+	// afterPublish, if set, runs in meshRound right after the round's messages were published
+	// (before quiescence is awaited): scenarios with a slow link lift the delay here
+	afterPublish func(pubs []meshPub)
+}
+
+// drained: no byte written to any live stream is still waiting to be read by the far end.
+func (m *mesh) drained() bool {
+	for _, l := range m.links {
+		if !l.alive {
+			continue
+		}
+		for _, end := range l.ends {
+			end.w.mu.Lock()
+			n := len(end.w.buf)
+			end.w.mu.Unlock()
+			if n != 0 {
+				return false
+			}
+		}
+	}
+	return true
 }
 
 var meshHashTypes = []hash.HashType{hash.HashType_HashType_UNKNOWN, hash.HashType_HashType_SHA256, hash.HashType_HashType_SHA1, hash.HashType_HashType_BLAKE3}
@@ -121,9 +142,13 @@ func newMesh(e *engine, n int) *mesh {
 	return m
 }
 
-func (m *mesh) subscribe(i int, ch string) *msub {
+func (m *mesh) subscribe(i int, ch string) *msub { return m.subscribeKey(i, ch, m.nodes[i].key) }
+
+// subscribeKey adds a subscription of node i to ch held under key k (the API takes a private key
+// per subscription: it need not be the identity the node's links are made with).
+func (m *mesh) subscribeKey(i int, ch string, k *key) *msub {
 	nd := m.nodes[i]
-	s, err := nd.fs.AddSubscription(nd.ctx, nd.key.sk, ch)
+	s, err := nd.fs.AddSubscription(nd.ctx, k.sk, ch)
 	if err != nil {
 		panic(err)
 	}
@@ -495,6 +520,10 @@ type meshPub struct {
 	// foreign: signed with an identity that is not the publishing node's
 	foreign bool
 	signer  peer.ID
+	// fkey: the foreign identity to sign with (nil: a fresh identity per round)
+	fkey *key
+	// via: publish through this subscription handle (its own key, which may differ from the node identity)
+	via *msub
 }
 
 // reachSub: nodes reachable from src through live links whose far end subscribes to ch
@@ -645,6 +674,9 @@ func (e *engine) meshRound(m *mesh, opHead string, pubs []meshPub, branch string
 		if p.foreign {
 			p.origin = 100 + p.node
 			p.signer = extra.id
+			if p.fkey != nil {
+				p.signer = p.fkey.id
+			}
 		}
 		pl = append(pl, fmt.Sprintf("%d/%d/%d/%d", p.node, p.id, p.origin, chanNum[p.ch]))
 	}
@@ -674,10 +706,18 @@ func (e *engine) meshRound(m *mesh, opHead string, pubs []meshPub, branch string
 		sk := m.nodes[p.node].key.sk
 		if p.foreign {
 			sk = extra.sk
+			if p.fkey != nil {
+				sk = p.fkey.sk
+			}
 		}
 		// the application's way to publish is the subscription handle (Subscription.Publish: the
 		// handle's own channel, key and context); taken whenever the publisher holds one, on a coin flip
-		if ls := m.liveSubs(p.node, p.ch); !p.foreign && len(ls) != 0 && e.rng.Intn(2) == 0 {
+		if p.via != nil {
+			if err := p.via.s.Publish([]byte(p.data)); err != nil {
+				panic(err)
+			}
+			e.rep.Case(opHead+" #publish-through-handle", "x", "x", "publish.handle", false)
+		} else if ls := m.liveSubs(p.node, p.ch); !p.foreign && len(ls) != 0 && e.rng.Intn(2) == 0 {
 			if err := ls[e.rng.Intn(len(ls))].s.Publish([]byte(p.data)); err != nil {
 				panic(err)
 			}
@@ -688,6 +728,9 @@ func (e *engine) meshRound(m *mesh, opHead string, pubs []meshPub, branch string
 		if e.rng.Intn(2) == 0 {
 			time.Sleep(time.Duration(e.rng.Intn(500)) * time.Microsecond)
 		}
+	}
+	if m.afterPublish != nil {
+		m.afterPublish(pubs)
 	}
 	// quiescence: all predicted deliveries arrived, then the wire stays silent
 	expected := 0
@@ -739,7 +782,7 @@ func (e *engine) meshRound(m *mesh, opHead string, pubs []meshPub, branch string
 		m.mu.Lock()
 		cur := len(m.dels) + len(m.wires)
 		m.mu.Unlock()
-		if cur == last && i >= 4 {
+		if cur == last && i >= 4 && m.drained() {
 			break
 		}
 		last = cur
@@ -819,6 +862,26 @@ func (e *engine) meshRound(m *mesh, opHead string, pubs []meshPub, branch string
 			mon = fmt.Sprintf("node %d: message %d was handed to a subscriber with reported sender %s but it was signed and published by %s", d.node, id, d.from.String(), byID[id].signer.String())
 			key = "pubsub.mesh:wrong-sender"
 		}
+	}
+	// no re-flood: a router writes a given message at most once to a given (peer, link) stream
+	// (it serves each message once: a copy that comes back, also to its publisher, is dropped)
+	type wkey struct {
+		from, to int
+		link     uint64
+		data     string
+	}
+	written := map[wkey]int{}
+	for _, w := range wires {
+		written[wkey{w.from, w.to, w.link, w.data}]++
+	}
+	reflood := ""
+	for _, w := range wires { // first offender in wire order (deterministic)
+		if c := written[wkey{w.from, w.to, w.link, w.data}]; c > 1 && dataID[w.data] != 0 && reflood == "" {
+			reflood = fmt.Sprintf("node %d wrote message %d %d times to node %d on link %d: the message was flooded again", w.from, dataID[w.data], c, w.to, w.link)
+		}
+	}
+	if reflood != "" {
+		e.rep.Compare(op+" #re-flood", "once", "again", branch, "pubsub.mesh:re-flood", reflood)
 	}
 	for _, w := range wires {
 		id := dataID[w.data]
